@@ -333,7 +333,7 @@ example : printList 1 none (wordOpd ['a'])
     = [' ', 'a', ' ', ' ', ' ', 'A', 'N', 'D', ' ', 'b', ' ', 'O', 'R', ' ', ' ', '-', 'c', ' '] := by decide
 example : PlainWord ['b'] ∧ PlainWord ['c'] := ⟨⟨by simp, by decide, by decide⟩, ⟨by simp, by decide, by decide⟩⟩
 
-/-- **print/parse for the nested fragment** (`WFOpd`: plain words, double-quoted phrases without escapes — any characters but `"` and `\`, optionally followed by a slop `~digits` (below 2^32) or the prefix star —, either of them with a field prefix `name:` (the name a plain word), bracketed ranges `[a TO b]`, `{a TO b}`, `[a TO b}`, `{a TO b]` with bounds of letters and digits (also with a field prefix), sets `IN [a b c]` of plain words with any blanks after `IN`, after `[` and between the elements (also with a field prefix), `NOT x` of a well-formed operand, and parenthesised operand lists
+/-- **print/parse for the nested fragment** (`WFOpd`: plain words, double-quoted phrases without escapes — any characters but `"` and `\`, optionally followed by a slop `~digits` (below 2^32) or the prefix star —, double-quoted phrases of ANY characters printed with `\"` and `\\` escapes (`escQuoted`), either of them with a field prefix `name:` (the name a plain word), bracketed ranges `[a TO b]`, `{a TO b}`, `[a TO b}`, `{a TO b]` with bounds of letters and digits (also with a field prefix), sets `IN [a b c]` of plain words with any blanks after `IN`, after `[` and between the elements (also with a field prefix), `NOT x` of a well-formed operand, and parenthesised operand lists
     of well-formed operands, to any depth, each list with `+`/`-` markers, `AND `/`OR ` and any
     layout): the strict parser reads the printed text as the tree the printer's structure denotes —
     at every level the fold (`strictAst`, see `C16_listTree_is_fold`) of the operands' trees —
@@ -400,6 +400,12 @@ example : (fieldSetOpd ['t'] 1 0 ['a'] [(1, ['b'])]).text = ['t', ':', 'I', 'N',
   simp only [List.mem_singleton] at he
   subst he
   exact ⟨by simp, by decide, by decide⟩
+
+/-- `"a\"\\"` (the phrase body `a"\` printed with escapes) is a well-formed operand that reads back as that body -/
+example : (phraseEscOpd ['a', '"', '\\'] .none).text = ['"', 'a', '\\', '"', '\\', '\\', '"']
+    ∧ (phraseEscOpd ['a', '"', '\\'] .none).leaf = .leaf (.literal none ['a', '"', '\\'] .double 0 false)
+    ∧ WFOpd (phraseEscOpd ['a', '"', '\\'] .none) :=
+  ⟨by decide, rfl, .phraseEsc _ _ trivial⟩
 
 /-- `NOT  t:a` is a well-formed operand, read as the clause `(-t:a)` -/
 example : (notOpd 1 (fieldWordOpd ['t'] ['a'])).text = ['N', 'O', 'T', ' ', ' ', 't', ':', 'a']
